@@ -1,14 +1,19 @@
 package harness
 
 import (
+	"context"
 	"encoding/json"
 	"fmt"
+	"github.com/google/uuid"
+	"go.6river.tech/mmmbbb/actions"
+	"go.6river.tech/mmmbbb/grpc/pubsubpb"
 	"os"
 	"path/filepath"
 	"strconv"
 	"strings"
 	"testing"
 	"testing/synctest"
+	"time"
 )
 
 func envInt(name string, def int) int {
@@ -173,6 +178,7 @@ type coreCfg struct {
 	nops          int
 	drain         bool
 	metamorphic   bool
+	extra         func(t *testing.T, st *Stats) // further runners of the same property
 }
 
 func hasFinding(fs []Finding, prop, sig string) *Finding {
@@ -414,6 +420,9 @@ func runCore(t *testing.T, cfg coreCfg) {
 	if cfg.metamorphic {
 		runMetamorphic(t, st, cfg, base)
 	}
+	if cfg.extra != nil && len(st.Violations) == 0 {
+		cfg.extra(t, st)
+	}
 	st.Set("evaluations", nOps)
 	st.Set("histories", nHist)
 	st.Set("traces_validated_against_impl", nHist-disagreements)
@@ -612,11 +621,85 @@ func TestC01(t *testing.T) {
 func TestC02(t *testing.T) {
 	runCore(t, coreCfg{prop: "C02", profile: profC02, quickSeeds: 40, thoroughSeeds: 700, nops: 100, drain: true})
 }
-func TestC03(t *testing.T) {
-	runCore(t, coreCfg{prop: "C03", profile: profC03, quickSeeds: 40, thoroughSeeds: 700, nops: 100})
+
+// streamInitialAck: acknowledgements carried by the first request of a StreamingPull are final too
+func streamInitialAck(t *testing.T, st *Stats) {
+	var what string
+	synctest.Test(t, func(t *testing.T) {
+		w := NewWorld(t, Seed())
+		defer w.Close()
+		cfg := &SubCfg{Topic: "t", TTL: 24 * 3600 * Sec, MTTL: 3600 * Sec}
+		w.Exec(Op{K: "create_topic", Topic: "t"})
+		w.Exec(Op{K: "create_sub", Sub: "s", Cfg: cfg})
+		w.Exec(Op{K: "publish", Topic: "t", Msgs: []MsgSpec{{N: 0}, {N: 1}}})
+		time.Sleep(time.Millisecond)
+		r := w.Exec(Op{K: "pull", Sub: "s", Max: 1})
+		if len(r.Delivered) != 1 {
+			t.Fatalf("setup pull delivered %d", len(r.Delivered))
+		}
+		acked := r.Delivered[0].ID
+		w.Ctl.mu.Lock()
+		w.Ctl.tick = 0
+		w.Ctl.mu.Unlock()
+		conn := &scriptConn{closed: make(chan struct{}), out: map[uuid.UUID]int{}, limit: actions.FlowControl{MaxMessages: 10, MaxBytes: 1 << 20}, ctl: w.Ctl,
+			greqs: make(chan *pubsubpb.StreamingPullRequest)}
+		ctx, cancel := context.WithCancel(context.Background())
+		fin := make(chan error, 1)
+		go func() { fin <- w.Api().Sub.StreamingPull(&grpcStream{c: conn, ctx: ctx}) }()
+		conn.greqs <- &pubsubpb.StreamingPullRequest{Subscription: SubName("s"), StreamAckDeadlineSeconds: 10, MaxOutstandingMessages: 10, MaxOutstandingBytes: 1 << 20,
+			AckIds: []string{acked.String()}}
+		synctest.Wait()
+		// let every lease lapse: an acknowledged message must not come back
+		time.Sleep(15 * time.Minute)
+		synctest.Wait()
+		conn.mu.Lock()
+		for _, sm := range conn.sent {
+			if sm.id == acked {
+				what = fmt.Sprintf("delivery %s, acknowledged in the initial request of the StreamingPull, was sent again on the stream", acked)
+			}
+		}
+		conn.mu.Unlock()
+		if d, err := w.Client.Delivery.Get(qctx, acked); err == nil && d.CompletedAt == nil && what == "" {
+			what = fmt.Sprintf("delivery %s, acknowledged in the initial request of the StreamingPull, is still outstanding", acked)
+		}
+		cancel()
+		synctest.Wait()
+	})
+	st.Count("stream_initial_ack_cases", 1)
+	if what != "" {
+		p := writeReplay(fmt.Sprintf("C03-stream-initial-ack-%d.json", Seed()), replayFile{Property: "C03", Sig: "stream-initial-ack", Seed: Seed(), What: what,
+			Note: "publish 2; Pull 1; StreamingPull whose initial request carries ack_ids=[that id]; wait 15 min"})
+		st.Violate(Violation{What: "[stream-initial-ack] " + what, Replay: p, FoundInput: true, Sig: "stream-initial-ack"})
+	}
 }
+
+func TestC03(t *testing.T) {
+	runCore(t, coreCfg{prop: "C03", extra: streamInitialAck, profile: profC03, quickSeeds: 40, thoroughSeeds: 700, nops: 100})
+}
+
+// streamLease: the lease on the streaming path — a message sent on a stream is not handed out again
+// while it is outstanding, whatever positive deadline extensions the client sends (actions streamer
+// and gRPC StreamingPull handler)
+func streamLease(t *testing.T, st *Stats) {
+	cases := []c11Case{
+		{Name: "lease-grpc-extend", Grpc: true, Actions: []c11Action{{K: "fc", Msgs: 3, Byts: 10000}, {K: "publish", Pads: []int{0, 0}}, {K: "extend", Pick: []int{0}}, {K: "extend", Pick: []int{0, 1}}, {K: "publish", Pads: []int{0}}, {K: "extend", Pick: []int{2}}, {K: "ack", Pick: []int{0}}}},
+		{Name: "lease-streamer-extend", Actions: []c11Action{{K: "fc", Msgs: 3, Byts: 10000}, {K: "publish", Pads: []int{0, 0}}, {K: "extend", Pick: []int{1}}, {K: "extend", Pick: []int{0, 1}}, {K: "ack", Pick: []int{0}}}},
+	}
+	for _, cs := range cases {
+		r := c11Run(t, Seed(), cs, map[string]bool{"stall-head-of-line": true})
+		st.Count("stream_lease_cases", 1)
+		if r.sig == "redelivered-while-leased" || r.sig == "bound" {
+			p := ReplayPath(fmt.Sprintf("C04-stream-%s-%d.json", cs.Name, Seed()))
+			b, _ := json.MarshalIndent(c11Replay{Property: "C04", Sig: "stream-" + r.sig, Seed: Seed(), Case: cs, What: r.violation}, "", " ")
+			os.WriteFile(p, b, 0o644)
+			st.Violate(Violation{What: fmt.Sprintf("[stream-%s] case %s: %s", r.sig, cs.Name, r.violation), Replay: p, FoundInput: true, Sig: "stream-" + r.sig})
+			return
+		}
+	}
+}
+
 func TestC04(t *testing.T) {
-	runCore(t, coreCfg{prop: "C04", profile: profC04, quickSeeds: 40, thoroughSeeds: 700, nops: 100})
+	runCore(t, coreCfg{prop: "C04", extra: streamLease, profile: profC04, quickSeeds: 40, thoroughSeeds: 700, nops: 100})
 }
 func TestC05(t *testing.T) {
 	runCore(t, coreCfg{prop: "C05", profile: profC05, quickSeeds: 40, thoroughSeeds: 700, nops: 100, drain: true})
